@@ -1,7 +1,7 @@
 // bounded stand-in / replay driver (appended to acts/src/scheduler/tests/vars.rs of a scratch copy): property C07.
 // Task::update_data on the REAL task tree root > step1 > b1 > s1 > act1 (4 ancestors) and an unrelated sibling branch b2:
 // for every subset of the ancestors holding the name (16) and three kinds of name (plain `a`, private `__a`, private `data_a`)
-// the result is compared with the statement: a non-private name lands in the outermost enclosing scope that declares it, no scope
+// the result is compared with the statement: a non-private name is updated in every enclosing scope that declares it (a later read sees it whether it resolves the name nearest-first or outermost-first), no scope
 // gains the name, nothing outside the ancestry changes, private names never leave the task, the writer's own data takes the value.
 #[tokio::test]
 async fn verif_replay_hist_data_scope() {
@@ -34,12 +34,11 @@ async fn verif_replay_hist_data_scope() {
             for t in others.iter() { t.set_data(&Vars::new().with(name, 50)); }
             act1.update_data(&Vars::new().with(name, 99));
             let private = name.starts_with("__") || name.starts_with("data");
-            // outermost holder = largest index in the mask
-            let target: Option<usize> = if private { None } else { (0..4).rev().find(|i| mask & (1 << i) != 0) };
+            // every enclosing scope that holds the name takes the value (so that nearest-first and outermost-first reads agree)
             let mut diffs: Vec<String> = Vec::new();
             for (i, t) in anc.iter().enumerate() {
                 let got = t.data().get::<i64>(name);
-                let want = if Some(i) == target { Some(99) } else if mask & (1 << i) != 0 { Some(i as i64) } else { None };
+                let want = if mask & (1 << i) != 0 { Some(if private { i as i64 } else { 99 }) } else { None };
                 if got != want { diffs.push(format!("ancestor #{i} ({}) holds {got:?}, the statement says {want:?}", t.node().id())); }
             }
             for t in others.iter() { let got = t.data().get::<i64>(name); if got != Some(50) { diffs.push(format!("task {} outside the ancestry now holds {got:?}", t.node().id())); } }
